@@ -305,7 +305,9 @@ SWEEP_SPECIALS = [2 ** k + d for k in range(12, 32) for d in (-1, 0, 1)] + [0x7F
 SWEEP_SPECIALS = [v for v in SWEEP_SPECIALS if 0 <= v <= 0xFFFFFFFF]
 
 
-def _sweep_block_specs():
+def _sweep_block_specs(long_labels=False):
+    """fixed blocks with two items; texts are non-ASCII and END IN A SPACE (a reader that trims under some condition shows), or fill
+    the field up to 200 / 254 characters (the terminator sits in the last quarter of the field)"""
     from .c07 import LABELLED, labelled_spec
     from .c14 import _minimal
 
@@ -317,7 +319,7 @@ def _sweep_block_specs():
             for it in spec.get(key) or []:
                 for lk, w in (("label", 256), ("name", 32), ("lens", 32), ("type", 32)):
                     if isinstance(it.get(lk), str):
-                        it[lk] = NONASCII[:w - 1]
+                        it[lk] = (NONASCII + " ")[:w - 1] if not long_labels else (("L" * 300)[:(200 if lk == "label" else 20)] + "\u00e9 " + "x" * 300)[:w - 2 - len(out) % 3] + " "
         out.append(spec)
     return out
 
@@ -329,7 +331,7 @@ ALL_FILLS = ["random", "ff", "text", "adversarial", "small-int", "float-special"
 def enum_fill_matrix(tier):
     """every filler kind x a few seeds x every block type (fixed blocks with two labelled items, non-ASCII text) x both sources: what the
     random draw of (type, filler) pairs covers only on average is covered for certain"""
-    for spec in _sweep_block_specs():
+    for spec in _sweep_block_specs() + _sweep_block_specs(long_labels=True):
         for kind in ALL_FILLS:
             for seed in ((1, 2, 3, 4, 5, 6) if kind.endswith("cstring") else (1, 2)):
                 for source in ("ref", "lib"):
